@@ -1095,6 +1095,62 @@ theorem Frustum_ZToDepthExc_ok (tmax n f l r t b y : α) :
   · exc_ok_tac h y [Gen.C07.Frustum.ZToDepthExc_5_0_10_persp, Gen.C07.Frustum.ZToDepth_5_0_10_persp]
   · exc_ok_tac h y [Gen.C07.Frustum.ZToDepthExc_12_0_10_persp, Gen.C07.Frustum.ZToDepth_12_0_10_persp]
 
+/-- more literal triples (audit r2 S3): `zval = zmax + 1` (the last value that does not wrap), a negative range, a wrap with negative
+`zmin` (25 > 16 ↦ 5), the unit range, and a range beyond 32 bits.  Each CHECKED member is `normalizedZToDepthExc` of the same exact
+fraction its unchecked twin feeds to `normalizedZToDepth` (whose general integer plumbing — wrap, `zdiff`, cast — is
+`C16.zToDepth_*_inrange / _wrap` in `Props/C16Z.lean`); the orthographic copies are identical -/
+theorem Frustum_ZToDepth_more (tmax n f l r t b : α) :
+    Gen.C07.Frustum.ZToDepthExc_11_0_10_persp tmax n f l r t b = Gen.C07.Frustum.normalizedZToDepthExc_persp tmax n f l r t b ((11 - 0) / 10) ∧
+    Gen.C07.Frustum.ZToDepth_11_0_10_persp n f l r t b = Gen.C07.Frustum.normalizedZToDepth_persp n f l r t b ((11 - 0) / 10) ∧
+    Gen.C07.Frustum.ZToDepthExc_11_0_10_ortho n f l r t b = Gen.C07.Frustum.ZToDepth_11_0_10_ortho n f l r t b ∧
+    Gen.C07.Frustum.ZToDepthExc_m3_m10_10_persp tmax n f l r t b = Gen.C07.Frustum.normalizedZToDepthExc_persp tmax n f l r t b ((-3 - -10) / 20) ∧
+    Gen.C07.Frustum.ZToDepth_m3_m10_10_persp n f l r t b = Gen.C07.Frustum.normalizedZToDepth_persp n f l r t b ((-3 - -10) / 20) ∧
+    Gen.C07.Frustum.ZToDepthExc_m3_m10_10_ortho n f l r t b = Gen.C07.Frustum.ZToDepth_m3_m10_10_ortho n f l r t b ∧
+    Gen.C07.Frustum.ZToDepthExc_25_m5_15_persp tmax n f l r t b = Gen.C07.Frustum.normalizedZToDepthExc_persp tmax n f l r t b ((5 - -5) / 20) ∧
+    Gen.C07.Frustum.ZToDepth_25_m5_15_persp n f l r t b = Gen.C07.Frustum.normalizedZToDepth_persp n f l r t b ((5 - -5) / 20) ∧
+    Gen.C07.Frustum.ZToDepthExc_25_m5_15_ortho n f l r t b = Gen.C07.Frustum.ZToDepth_25_m5_15_ortho n f l r t b ∧
+    Gen.C07.Frustum.ZToDepthExc_0_0_1_persp tmax n f l r t b = Gen.C07.Frustum.normalizedZToDepthExc_persp tmax n f l r t b ((0 - 0) / 1) ∧
+    Gen.C07.Frustum.ZToDepth_0_0_1_persp n f l r t b = Gen.C07.Frustum.normalizedZToDepth_persp n f l r t b ((0 - 0) / 1) ∧
+    Gen.C07.Frustum.ZToDepthExc_0_0_1_ortho n f l r t b = Gen.C07.Frustum.ZToDepth_0_0_1_ortho n f l r t b ∧
+    Gen.C07.Frustum.ZToDepthExc_w33_persp tmax n f l r t b = Gen.C07.Frustum.normalizedZToDepthExc_persp tmax n f l r t b ((8589934591 - 1) / 8589934590) ∧
+    Gen.C07.Frustum.ZToDepth_w33_persp n f l r t b = Gen.C07.Frustum.normalizedZToDepth_persp n f l r t b ((8589934591 - 1) / 8589934590) ∧
+    Gen.C07.Frustum.ZToDepthExc_w33_ortho n f l r t b = Gen.C07.Frustum.ZToDepth_w33_ortho n f l r t b := by
+  refine ⟨?_, ?_, ?_, ?_, ?_, ?_, ?_, ?_, ?_, ?_, ?_, ?_, ?_, ?_, ?_⟩ <;>
+    simp only [Gen.C07.Frustum.normalizedZToDepthExc_persp, Gen.C07.Frustum.normalizedZToDepth_persp,
+      Gen.C07.Frustum.ZToDepthExc_11_0_10_persp,
+      Gen.C07.Frustum.ZToDepth_11_0_10_persp,
+      Gen.C07.Frustum.ZToDepthExc_11_0_10_ortho,
+      Gen.C07.Frustum.ZToDepth_11_0_10_ortho,
+      Gen.C07.Frustum.ZToDepthExc_m3_m10_10_persp,
+      Gen.C07.Frustum.ZToDepth_m3_m10_10_persp,
+      Gen.C07.Frustum.ZToDepthExc_m3_m10_10_ortho,
+      Gen.C07.Frustum.ZToDepth_m3_m10_10_ortho,
+      Gen.C07.Frustum.ZToDepthExc_25_m5_15_persp,
+      Gen.C07.Frustum.ZToDepth_25_m5_15_persp,
+      Gen.C07.Frustum.ZToDepthExc_25_m5_15_ortho,
+      Gen.C07.Frustum.ZToDepth_25_m5_15_ortho,
+      Gen.C07.Frustum.ZToDepthExc_0_0_1_persp,
+      Gen.C07.Frustum.ZToDepth_0_0_1_persp,
+      Gen.C07.Frustum.ZToDepthExc_0_0_1_ortho,
+      Gen.C07.Frustum.ZToDepth_0_0_1_ortho,
+      Gen.C07.Frustum.ZToDepthExc_w33_persp,
+      Gen.C07.Frustum.ZToDepth_w33_persp,
+      Gen.C07.Frustum.ZToDepthExc_w33_ortho,
+      Gen.C07.Frustum.ZToDepth_w33_ortho]
+
+theorem Frustum_ZToDepthExc_more_ok (tmax n f l r t b y : α) :
+    (Gen.C07.Frustum.ZToDepthExc_11_0_10_persp tmax n f l r t b = .ok y → Gen.C07.Frustum.ZToDepth_11_0_10_persp n f l r t b = y) ∧
+    (Gen.C07.Frustum.ZToDepthExc_m3_m10_10_persp tmax n f l r t b = .ok y → Gen.C07.Frustum.ZToDepth_m3_m10_10_persp n f l r t b = y) ∧
+    (Gen.C07.Frustum.ZToDepthExc_25_m5_15_persp tmax n f l r t b = .ok y → Gen.C07.Frustum.ZToDepth_25_m5_15_persp n f l r t b = y) ∧
+    (Gen.C07.Frustum.ZToDepthExc_0_0_1_persp tmax n f l r t b = .ok y → Gen.C07.Frustum.ZToDepth_0_0_1_persp n f l r t b = y) ∧
+    (Gen.C07.Frustum.ZToDepthExc_w33_persp tmax n f l r t b = .ok y → Gen.C07.Frustum.ZToDepth_w33_persp n f l r t b = y) := by
+  refine ⟨?_, ?_, ?_, ?_, ?_⟩
+  · intro h; exc_ok_tac h y [Gen.C07.Frustum.ZToDepthExc_11_0_10_persp, Gen.C07.Frustum.ZToDepth_11_0_10_persp]
+  · intro h; exc_ok_tac h y [Gen.C07.Frustum.ZToDepthExc_m3_m10_10_persp, Gen.C07.Frustum.ZToDepth_m3_m10_10_persp]
+  · intro h; exc_ok_tac h y [Gen.C07.Frustum.ZToDepthExc_25_m5_15_persp, Gen.C07.Frustum.ZToDepth_25_m5_15_persp]
+  · intro h; exc_ok_tac h y [Gen.C07.Frustum.ZToDepthExc_0_0_1_persp, Gen.C07.Frustum.ZToDepth_0_0_1_persp]
+  · intro h; exc_ok_tac h y [Gen.C07.Frustum.ZToDepthExc_w33_persp, Gen.C07.Frustum.ZToDepth_w33_persp]
+
 /-! ### screenRadius / worldRadius: `if (abs (d) > 1 || abs (n) < max * abs (d)) return …; else throw` -/
 
 theorem Frustum_screenRadiusExc_ok (tmax n f l r t b : α) (p : V3 α) (radius y : α)
